@@ -4,6 +4,7 @@ import Driver.Dec
 import Driver.Mem
 import Driver.Ledger
 import Driver.MTProto
+import Driver.Train
 
 def main (args : List String) : IO UInt32 := do
   match args with
@@ -13,4 +14,5 @@ def main (args : List String) : IO UInt32 := do
   | ["mem"] => Driver.Mem.main; return 0
   | ["ledger"] => Driver.Ledger.main; return 0
   | ["mtproto"] => Driver.MTProto.main; return 0
+  | ["train"] => Driver.Train.main; return 0
   | _ => IO.eprintln "usage: zvdriver <model>"; return 2
